@@ -282,9 +282,13 @@ func writeEvidence(path, prop, tier string, seed int, e *Engine, results []*Func
 	}
 	var externs []string
 	if e != nil {
-		for _, c := range e.CS.Order {
-			if c.Kind == "extern" || (c.Trusted && c.Kind != "extern") {
-				externs = append(externs, c.Kind+" "+c.Name+" (assumed contract)")
+		seenAssumed := map[string]bool{}
+		for _, r := range results {
+			for _, a := range r.Assumed {
+				if !seenAssumed[a] {
+					seenAssumed[a] = true
+					externs = append(externs, a)
+				}
 			}
 		}
 		for _, a := range axioms {
